@@ -15,6 +15,7 @@ import (
 	"hash/fnv"
 	"os"
 	"path/filepath"
+	"runtime"
 	"runtime/debug"
 	"sort"
 	"strconv"
@@ -214,7 +215,35 @@ func (s *vfStats) flush() {
 
 var vfJournalFile *os.File
 
+// The watchdog turns a wedged harness (a call into the package that never returns and was not wrapped in
+// vfAwait) into a prompt "no verdict": when no case or enumerated element has started for vfWedgeAfter the
+// process dumps its goroutines and exits 4, which the driver reports as inconclusive. It decides nothing
+// about the code under test.
+const vfWedgeAfter = 5 * time.Minute
+
+var (
+	vfBeatMu    sync.Mutex
+	vfBeatTimer *time.Timer
+)
+
+// vfBeat re-arms the watchdog. A timer, not a sleeping goroutine: the quiescence oracle looks at every
+// goroutine of the process, and one that sleeps would never let it see a hang.
+func vfBeat() {
+	vfBeatMu.Lock()
+	defer vfBeatMu.Unlock()
+	if vfBeatTimer == nil {
+		vfBeatTimer = time.AfterFunc(vfWedgeAfter, func() {
+			buf := make([]byte, 1<<20)
+			fmt.Fprintf(os.Stderr, "VFWEDGED: no case started for %v\n%s\n", vfWedgeAfter, buf[:runtime.Stack(buf, true)])
+			os.Exit(4)
+		})
+		return
+	}
+	vfBeatTimer.Reset(vfWedgeAfter)
+}
+
 func vfJournal(prop, sub string, data []byte) {
+	vfBeat()
 	if *vfFlagOut == "" {
 		return
 	}
@@ -348,6 +377,7 @@ func vfExec[C any](p vfProp[C], sub string, c C, replay bool) (*vfFailure, []byt
 	if err != nil {
 		panic(fmt.Sprintf("vf: case of %s not serialisable: %v", p.ID, err))
 	}
+	vfBeat()
 	if !replay {
 		vfJournal(p.ID, sub, data)
 	}
